@@ -44,6 +44,14 @@ theorem lmax_run (a b : Int) : runFun2 (seqOf lmaxParts) a b = .ok (some (max a 
   · have : max a b = b := by omega
     xs [runFun2, lmaxParts, lmax0, lmax1, m0, h, this]
 
+theorem fun2_min (a b : Int) : fun2 (seqOf lminParts) a b = some (min a b) := by simp [fun2, lmin_run]
+theorem fun2_max (a b : Int) : fun2 (seqOf lmaxParts) a b = some (max a b) := by simp [fun2, lmax_run]
+
+@[simp] theorem listRo_H (B : Bodies) (h : Nat) : (listRo B h).H = h := rfl
+@[simp] theorem listRo_W (B : Bodies) (h : Nat) : (listRo B h).W = 0 := rfl
+theorem listRo_min (h : Nat) : (listRo expB h).fn2 "min" = some (fun2 (seqOf lminParts)) := by simp [listRo, listFns, expB]
+theorem listRo_max (h : Nat) : (listRo expB h).fn2 "max" = some (fun2 (seqOf lmaxParts)) := by simp [listRo, listFns, expB]
+
 theorem lnew_run (k : Nat) : runListNew (seqOf lnewParts) k = some (SimpleList.new k) := by
   xs [runListNew, lnewParts, lnew0, listSt, m0, SimpleList.new]
 
@@ -51,21 +59,21 @@ theorem lindex_run (s : SimpleList.St) : runListIndex (seqOf lindexParts) s = so
   xs [runListIndex, lindexParts, lindex0, listM, m0]
 
 theorem lnav_run (s : SimpleList.St) (h k : Nat) :
-    runList (seqOf ldownParts) s h k = some (.ok (SimpleList.nav rhsFixed s .down, [])) ∧
-    runList (seqOf lupParts) s h k = some (.ok (SimpleList.nav rhsFixed s .up, [])) ∧
-    runList (seqOf lhomeParts) s h k = some (.ok (SimpleList.nav rhsFixed s .home, [])) ∧
-    runList (seqOf lendParts) s h k = some (.ok (SimpleList.nav rhsFixed s .«end», [])) ∧
-    runList (seqOf lpgdnParts) s h k = some (.ok (SimpleList.nav rhsFixed s (.pageDown h), [])) ∧
-    runList (seqOf lpgupParts) s h k = some (.ok (SimpleList.nav rhsFixed s (.pageUp h), [])) ∧
-    runList (seqOf lsetParts) s h k = some (.ok (SimpleList.nav rhsFixed s (.setItems k), [])) := by
+    runList expB (seqOf ldownParts) s h k = some (.ok (SimpleList.nav rhsFixed s .down, [])) ∧
+    runList expB (seqOf lupParts) s h k = some (.ok (SimpleList.nav rhsFixed s .up, [])) ∧
+    runList expB (seqOf lhomeParts) s h k = some (.ok (SimpleList.nav rhsFixed s .home, [])) ∧
+    runList expB (seqOf lendParts) s h k = some (.ok (SimpleList.nav rhsFixed s .«end», [])) ∧
+    runList expB (seqOf lpgdnParts) s h k = some (.ok (SimpleList.nav rhsFixed s (.pageDown h), [])) ∧
+    runList expB (seqOf lpgupParts) s h k = some (.ok (SimpleList.nav rhsFixed s (.pageUp h), [])) ∧
+    runList expB (seqOf lsetParts) s h k = some (.ok (SimpleList.nav rhsFixed s (.setItems k), [])) := by
   refine ⟨?_, ?_, ?_, ?_, ?_, ?_, ?_⟩
-  · xs [runList, ldownParts, ldown0, listM, listSt, m0, SimpleList.nav, rhsFixed]
-  · xs [runList, lupParts, lup0, listM, listSt, m0, SimpleList.nav, rhsFixed]
-  · xs [runList, lhomeParts, lhome0, listM, listSt, m0, SimpleList.nav, rhsFixed]
-  · xs [runList, lendParts, lend0, listM, listSt, m0, SimpleList.nav, rhsFixed]
-  · xs [runList, lpgdnParts, lpgdn0, lpgdn1, listM, listSt, m0, SimpleList.nav, rhsFixed]
-  · xs [runList, lpgupParts, lpgup0, lpgup1, listM, listSt, m0, SimpleList.nav, rhsFixed]
-  · xs [runList, lsetParts, lset0, lset1, listM, listSt, m0, SimpleList.nav, rhsFixed]
+  · xs [runList, ldownParts, ldown0, listM, listSt, m0, SimpleList.nav, rhsFixed, listRo_min, listRo_max, fun2_min, fun2_max]
+  · xs [runList, lupParts, lup0, listM, listSt, m0, SimpleList.nav, rhsFixed, listRo_min, listRo_max, fun2_min, fun2_max]
+  · xs [runList, lhomeParts, lhome0, listM, listSt, m0, SimpleList.nav, rhsFixed, listRo_min, listRo_max, fun2_min, fun2_max]
+  · xs [runList, lendParts, lend0, listM, listSt, m0, SimpleList.nav, rhsFixed, listRo_min, listRo_max, fun2_min, fun2_max]
+  · xs [runList, lpgdnParts, lpgdn0, lpgdn1, listM, listSt, m0, SimpleList.nav, rhsFixed, listRo_min, listRo_max, fun2_min, fun2_max]
+  · xs [runList, lpgupParts, lpgup0, lpgup1, listM, listSt, m0, SimpleList.nav, rhsFixed, listRo_min, listRo_max, fun2_min, fun2_max]
+  · xs [runList, lsetParts, lset0, lset1, listM, listSt, m0, SimpleList.nav, rhsFixed, listRo_min, listRo_max, fun2_min, fun2_max]
 
 /-! ### `List.Draw` -/
 
@@ -210,7 +218,7 @@ theorem ldraw_tail {φ : List (String × Int)} {idx off : Int} {n H : Nat} {r : 
   | .error .oof => exact h.elim
 
 theorem ldraw_key (s : SimpleList.St) (h : Nat) (hn : s.n ≠ 0) :
-    LDraw' s.index (SimpleList.follow s h) s.n h (exec ⟨0, h, [], noCall⟩ (seqOf ldrawParts) 0 (listM s 0)) := by
+    LDraw' s.index (SimpleList.follow s h) s.n h (exec (listRo expB h) (seqOf ldrawParts) 0 (listM s 0)) := by
   obtain ⟨idx, off, n⟩ := s
   simp only at hn
   have hn' : ¬ ((n : Int) = 0) := by omega
@@ -258,7 +266,7 @@ def obs (r : Except SimpleList.Panic (SimpleList.St × List Row)) : Except Unit 
 
 /-- `List.Draw` executed from its body IS `SimpleList.draw` (same state, same rows, panic iff the model panics). -/
 theorem ldraw_run (s : SimpleList.St) (h : Nat) :
-    runList (seqOf ldrawParts) s h 0 = some (obs (SimpleList.draw rhsFixed s h)) := by
+    runList expB (seqOf ldrawParts) s h 0 = some (obs (SimpleList.draw rhsFixed s h)) := by
   by_cases hn : s.n = 0
   · obtain ⟨idx, off, n⟩ := s
     simp only at hn
@@ -267,7 +275,7 @@ theorem ldraw_run (s : SimpleList.St) (h : Nat) :
   · have hk := ldraw_key s h hn
     unfold runList
     revert hk
-    generalize exec ⟨0, h, [], noCall⟩ (seqOf ldrawParts) 0 (listM s 0) = r
+    generalize exec (listRo expB h) (seqOf ldrawParts) 0 (listM s 0) = r
     intro hk
     have hg : (rhsFixed.drawEmptyGuard && s.n == 0) = false := by simp [rhsFixed, hn]
     match r, hk with
@@ -347,7 +355,7 @@ theorem setCell_mark (win : Win) (w h : Nat) (c : Ch) (top i : Int) (hlen : win.
 theorem bloop (R : Ro) (top barH : Int) (c : Ch) (w h : Nat) : ∀ (k fuel : Nat) (i : Int) (m : M),
     (barH - i).toNat = k → 0 ≤ i → i ≤ barH → k < fuel → BInv top barH c w h i m →
     BRes top barH c w h barH
-      (loopN (fun m => evB m (.bin "<" (.var "v4") (.var "v2"))) (exec R bbody) (exec R bpost) fuel m) := by
+      (loopN (fun m => evB R.fn2 m (.bin "<" (.var "v4") (.var "v2"))) (exec R bbody) (exec R bpost) fuel m) := by
   intro k
   induction k with
   | zero =>
@@ -356,7 +364,7 @@ theorem bloop (R : Ro) (top barH : Int) (c : Ch) (w h : Nat) : ∀ (k fuel : Nat
     have hib' : i = barH := by omega
     subst hib'
     obtain ⟨h1, h2, h3, h4, h5, h6⟩ := hInv
-    have hc : evB m (.bin "<" (.var "v4") (.var "v2")) = some false := by
+    have hc : evB R.fn2 m (.bin "<" (.var "v4") (.var "v2")) = some false := by
       simp only [consts] at h1 h2
       simp [evB, evI, look, consts, h1, h2]
     simp only [loopN, hc]
@@ -370,7 +378,7 @@ theorem bloop (R : Ro) (top barH : Int) (c : Ch) (w h : Nat) : ∀ (k fuel : Nat
     simp only [consts] at h1 h2 h3
     simp only at h4 h5 h6
     have hm := setCell_mark win' w h c top i h5 h6 hi0
-    have hcond : evB ⟨φ', ρ, χ, ls, L, lv, C, sh, win', rows'⟩ (.bin "<" (.var "v4") (.var "v2")) = some true := by
+    have hcond : evB R.fn2 ⟨φ', ρ, χ, ls, L, lv, C, sh, win', rows'⟩ (.bin "<" (.var "v4") (.var "v2")) = some true := by
       simp [evB, evI, look, consts, h1, h2, hlt]
     have hbody : exec R bbody fuel' ⟨φ', ρ, χ, ls, L, lv, C, sh, win', rows'⟩ =
         .ok (⟨φ', ("v5.Width", c.width) :: ρ, ("v5", c) :: ("v5.Grapheme", c) :: χ, ls, L, lv, C, sh, setCell win' 0 (top + i) c, rows'⟩, .norm) := by
@@ -419,7 +427,7 @@ theorem tdiv_le_h (total view : Int) (h : Nat) (h1 : 1 ≤ total) (h2 : view < t
     omega
 
 theorem bdraw8_run (R : Ro) (f : Nat) (m : M) :
-    exec R bdraw8 f m = loopN (fun m => evB m (.bin "<" (.var "v4") (.var "v2"))) (exec R bbody) (exec R bpost) f m := by
+    exec R bdraw8 f m = loopN (fun m => evB R.fn2 m (.bin "<" (.var "v4") (.var "v2"))) (exec R bbody) (exec R bpost) f m := by
   rw [bdraw8_eq]; rfl
 
 theorem bdraw8_ok (R : Ro) (top barH : Int) (c : Ch) (w h : Nat) (k fuel : Nat) (m : M)
